@@ -5,9 +5,9 @@
 # usage: tools/determinism.sh [seeds=300] [scale=0.05]   -> evidence/determinism.txt
 HERE="$(cd "$(dirname "$0")/.." && pwd)"
 SEEDS=${1:-300}; SCALE=${2:-0.05}
-"$HERE/check" C18 quick > /dev/null 2>&1 || true   # make sure the binary is built against /repo
 BIN="$HERE/sim/target/release/hootsim"
 OUT=$(mktemp -d /dev/shm/hootdet.XXXXXX)
+VERIF_OUT="$OUT" "$HERE/check" C18 quick > /dev/null 2>&1 || true   # make sure the binary is built against /repo
 export VERIF_DIR="$HERE" VERIF_OUT="$OUT" VERIF_SCALE="$SCALE"
 IDS=$("$BIN" --list | cut -d' ' -f1)
 one() { # id seed
